@@ -111,6 +111,7 @@ func cmdCSem(c *ctx) {
 		setKnob(&o, knob)
 		cKnobs(c, dialect, i, &o, &knob)
 		o.pack4 = true
+		o.frem = true     // HLSL naga_mod helper, MSL fmod, GLSL x - y * trunc(x / y)
 		o.bitField = true // HLSL helpers, MSL / GLSL intrinsics with clamped arguments
 		m, feat := genModule(c, o)
 		inp, outp := c.inputWords(16), c.inputWords(16)
